@@ -82,3 +82,55 @@ Theorem shortcut_window_widening_bounded : forall c slot ts,
   floor15 (c_from_ns c) <= ts < floor15 (c_to_ns c) /\ floor15 (c_to_ns c) <= c_to_ns c.
 Proof. exact shortcut_window_bounded. Qed.
 Print Assumptions shortcut_window_widening_bounded.
+
+(* topk / bottomk over such a script: the planned SQL keeps, per timestamp of the inner instant vector (itself the
+   reference of the inner script), the first k rows in the order of TopKPlanner's arraySort, then applies the
+   comparison and the step re-bucketing ... *)
+Theorem topk_correct :
+  forall (fp : lmap -> N) (to_float : string -> Qc) (quantile_o : string -> list Qc -> Qc) (varpop stddevpop : list Qc -> Qc),
+  (forall a b, fp a = fp b -> a = b) ->
+  forall c base t fin p,
+  analyze_m15 (STopK t) = false -> plan_metric (STopK t) fin = Some p -> script_ok (tk_inner t) ->
+  0 < c_step_ns c -> consistent base -> nonneg base ->
+  match sem fp to_float quantile_o varpop stddevpop p c base with
+  | Some out =>
+    exists inner kept, inner_ref to_float quantile_o varpop stddevpop (tk_inner t) (map entry_of base) = Some (map strip inner) /\
+                       topk_spec (tk_len t) (tk_top t) inner kept /\
+                       map strip out = ref_step (c_step_ns c) (get_duration (STopK t)) (ref_cmp (tk_cmp t) (map strip kept))
+  | None => inner_ref to_float quantile_o varpop stddevpop (tk_inner t) (map entry_of base) = None
+  end.
+Proof. exact LogqlMetricProofs.topk_correct. Qed.
+Print Assumptions topk_correct.
+
+(* ... and those first k rows are a top-k (bottom-k) set: k of them or all, rows of the group, and no row left out has a
+   larger (smaller) value than a row kept *)
+Theorem topk_selection : forall k top (g : list mrow),
+  let kept := firstn k (sort_by (tk_before top) g) in
+  let dropped := skipn k (sort_by (tk_before top) g) in
+  List.length kept = Nat.min k (List.length g) /\
+  (forall r, List.In r kept -> List.In r g) /\
+  (forall r, List.In r g -> List.In r kept \/ List.In r dropped) /\
+  (forall x y, List.In x kept -> List.In y dropped -> if top then (r_val y <= r_val x)%Qc else (r_val x <= r_val y)%Qc).
+Proof. exact topk_group_correct. Qed.
+Print Assumptions topk_selection.
+
+(* the Go post-processors: the window handed to the SQL is made of whole range windows and covers [from, to] ... *)
+Theorem fix_window_whole_ranges : forall from to d, 0 <= from -> 0 <= to -> 0 < d ->
+  fix_from from d mod d = 0 /\ fix_from from d <= from < fix_from from d + d /\
+  fix_to to d mod d = 0 /\ to < fix_to to d <= to + d.
+Proof. exact fix_window_aligned. Qed.
+Print Assumptions fix_window_whole_ranges.
+
+(* ... every point FixPeriodPlanner reports lies on the step grid starting at `from`, inside the array, and is not zero ... *)
+Theorem fix_period_on_grid : forall (V : Type) (is_zero : V -> bool) (zero : V) from to step d (bs : list (list (pentry V))) b (e : pentry V),
+  List.In b (fix_period is_zero zero from to step d bs) -> List.In e b ->
+  exists i, 0 <= i < Z.of_nat (Z.to_nat (Z.quot (to - from) step + 1)) /\ pe_ts e = from + i * step /\ is_zero (pe_val e) = false.
+Proof. exact @fix_period_grid. Qed.
+Print Assumptions fix_period_on_grid.
+
+(* ... and ZeroEaterPlanner forwards exactly the non-zero entries, in order, never an empty batch *)
+Theorem zero_eater_forwards_nonzero : forall (V : Type) (is_zero : V -> bool) (bs : list (list (pentry V))),
+  List.concat (zero_eater is_zero bs) = filter (fun e => negb (is_zero (pe_val e))) (List.concat bs) /\
+  forall b, List.In b (zero_eater is_zero bs) -> b <> [].
+Proof. exact @zero_eater_spec. Qed.
+Print Assumptions zero_eater_forwards_nonzero.
